@@ -20,6 +20,7 @@
 #include <dlfcn.h>
 #include <time.h>
 #include <sys/syscall.h>
+#include <sys/mman.h>
 #include <linux/futex.h>
 
 extern "C" {
@@ -454,15 +455,24 @@ void run_concurrent(const Config &cfg, thread_fn fn, void *arg, Result &out) {
         for (int d = 1; d < cfg.pct_depth; d++) g_pct_points.push_back(1 + sim_below(&pr, cfg.pct_est_steps ? cfg.pct_est_steps : 1));
         std::sort(g_pct_points.begin(), g_pct_points.end());
     }
-    pthread_attr_t at; pthread_attr_init(&at); pthread_attr_setstacksize(&at, 1 << 20);
+    // worker stacks are the simulator's: 1 MiB each, the upper STACK_WATCH bytes painted before every run so that the deepest
+    // byte a thread touched can be read off afterwards (how much stack the library needs on a thread is part of what a
+    // caller with small thread stacks relies on)
+    static char *stacks[MAXT]; const size_t STACK_SZ = 1u << 20, STACK_WATCH = 256u << 10;
+    for (int i = 0; i < cfg.nthreads; i++) {
+        if (!stacks[i]) { stacks[i] = (char *)mmap(nullptr, STACK_SZ, PROT_READ | PROT_WRITE, MAP_PRIVATE | MAP_ANONYMOUS | MAP_NORESERVE, -1, 0); if (stacks[i] == MAP_FAILED) stacks[i] = nullptr; }
+        if (stacks[i]) __real_memset(stacks[i] + STACK_SZ - STACK_WATCH, 0xAB, STACK_WATCH);
+    }
     for (int i = 0; i < cfg.nthreads; i++) {
         TH[i].state = ST_RUNNABLE; TH[i].go.store(0); TH[i].aborted = false; TH[i].blocked_on = nullptr; TH[i].depth = 0;
         // thread creation: child inherits the creator's clock
         memcpy(VC[i], VC[MAIN_TID], sizeof VC[i]); VC[i][i] = 1;
+        pthread_attr_t at; pthread_attr_init(&at);
+        if (stacks[i]) pthread_attr_setstack(&at, stacks[i], STACK_SZ); else pthread_attr_setstacksize(&at, STACK_SZ);
         pthread_create(&TH[i].th, &at, thread_main, (void *)(intptr_t)i);
+        pthread_attr_destroy(&at);
     }
     VC[MAIN_TID][MAIN_TID]++;
-    pthread_attr_destroy(&at);
     g_mode = 2;
     main_go.store(0);
     // the scheduler picks who starts
@@ -479,6 +489,15 @@ void run_concurrent(const Config &cfg, thread_fn fn, void *arg, Result &out) {
         if (g_step == before) { fprintf(stderr, "WATCHDOG: baton holder %d stalled at step %llu\n", g_cur, (unsigned long long)g_step); _Exit(4); }
     }
     for (int i = 0; i < cfg.nthreads; i++) { pthread_join(TH[i].th, nullptr); vc_join(VC[MAIN_TID], VC[i]); }
+    out.stack_used_max = 0; out.stack_used_thread = -1;
+    for (int i = 0; i < cfg.nthreads; i++) if (stacks[i]) {
+        // depth below the frame of the thread function (what lies above - thread descriptor, thread-local block, start frame - is glibc's)
+        const unsigned char *lo = (const unsigned char *)stacks[i] + STACK_SZ - STACK_WATCH, *q = lo, *top = (const unsigned char *)TH[i].own_hi;
+        if ((uintptr_t)top < (uintptr_t)lo || (uintptr_t)top > (uintptr_t)stacks[i] + STACK_SZ) continue;
+        while (q < top && *q == 0xAB) q++;
+        size_t used = (size_t)(top - q);
+        if (used > out.stack_used_max) { out.stack_used_max = used; out.stack_used_thread = i; }
+    }
     g_joined = cfg.nthreads;
     g_mode = 0;
     out.steps = g_step;
